@@ -4,6 +4,7 @@ import (
 	"fmt"
 	"go/token"
 	"go/types"
+	"sort"
 	"strings"
 
 	"golang.org/x/tools/go/ssa"
@@ -204,7 +205,7 @@ func (v *VC) genBuiltin(i *ssa.Call, bi *ssa.Builtin, g string, heap *Heap) {
 		v.unsupp("recover()")
 		v.declare(i)
 	case "close":
-		v.unsupp("close of channel")
+		v.note("close(channel) has no effect on the modelled memory")
 	default:
 		v.unsupp("builtin %s", bi.Name())
 		if i.Type() != nil {
@@ -424,7 +425,7 @@ func (v *VC) doCall(c *ssa.CallCommon, g string, heap *Heap, pos token.Pos) []st
 			v.assumeEnsures(callee, ct, args, res, g, heap)
 			return res
 		}
-		return v.modularCall(callee, ct, args, g, heap, pos)
+		return v.modularCall(callee, ct, args, bindings, g, heap, pos)
 	}
 	if (ct == nil || !ct.NoInline) && v.P.inRepo(callee) && v.inlinable(callee) {
 		return v.GenerateInline(callee, args, bindings, g, heap)
@@ -491,6 +492,34 @@ func (v *VC) callEnv(callee *ssa.Function, sig *types.Signature, ct *Contract, a
 	return env
 }
 
+// havocGhosts gives the named ghost variables ("*" = all declared) arbitrary new values.
+func (v *VC) havocGhosts(set map[string]bool, heap *Heap) {
+	var names []string
+	for g := range v.P.db.Ghosts {
+		if set["*"] || set[g] {
+			names = append(names, g)
+		}
+	}
+	sort.Strings(names)
+	for _, g := range names {
+		key := "ghost:" + g
+		v.registerKey(key, "RAW:"+v.P.db.Ghosts[g])
+		v.heapVer++
+		nm := fmt.Sprintf("H%d_%s", v.heapVer, sanitize(key))
+		v.emit("(declare-const %s %s)", nm, v.P.db.Ghosts[g])
+		heap.m[key] = nm
+	}
+}
+
+// bindFree makes the captured variables of a closure visible to its contract at a call site.
+func bindFree(env *SpecEnv, callee *ssa.Function, bindings []ssa.Value) {
+	for k, fv := range callee.FreeVars {
+		if k < len(bindings) {
+			env.addr[fv.Name()] = bindings[k]
+		}
+	}
+}
+
 func bindResults(env *SpecEnv, sig *types.Signature, res []string) {
 	rs := sig.Results()
 	for k := 0; k < rs.Len(); k++ {
@@ -505,9 +534,10 @@ func bindResults(env *SpecEnv, sig *types.Signature, res []string) {
 	}
 }
 
-func (v *VC) modularCall(callee *ssa.Function, ct *Contract, args []string, g string, heap *Heap, pos token.Pos) []string {
+func (v *VC) modularCall(callee *ssa.Function, ct *Contract, args []string, bindings []ssa.Value, g string, heap *Heap, pos token.Pos) []string {
 	sig := callee.Signature
 	pre := v.callEnv(callee, sig, ct, args, heap.clone())
+	bindFree(pre, callee, bindings)
 	for _, r := range ct.Requires {
 		v.oblige("call("+callee.Name()+").requires", r.Label, g, v.evalSpec(r, pre), pos, r.Src)
 		v.assume(g, v.evalSpec(r, pre))
@@ -515,8 +545,10 @@ func (v *VC) modularCall(callee *ssa.Function, ct *Contract, args []string, g st
 	if !ct.ModNothing {
 		v.havocAll(heap, false)
 	}
+	v.havocGhosts(v.P.ghostMod(callee, map[*ssa.Function]bool{}), heap)
 	res := v.freshResults(sig, g)
 	post := v.callEnv(callee, sig, ct, args, heap)
+	bindFree(post, callee, bindings)
 	post.old = pre
 	bindResults(post, sig, res)
 	v.applySets(ct, post, heap)
